@@ -15,6 +15,7 @@ import (
 )
 
 type Clause struct {
+	Uses  []string // lemmas assumed only for the obligations of this clause
 	Label string
 	Src   string
 	E     Expr
@@ -64,6 +65,8 @@ type FuncContract struct {
 	Asserts  []AssertAt
 	Private  []string
 	Unroll   int
+	Opaque   []string
+	Lemmas   []string // lemmas made available for clause-level use
 	Notes    []string
 	File     string
 	Line     int
@@ -126,7 +129,7 @@ func NewContracts() *Contracts {
 		Effects: map[string]*EffectDecl{}, Lemmas: map[string]*LemmaDecl{}}
 }
 
-var labelRe = regexp.MustCompile(`^([A-Za-z_][A-Za-z0-9_.]*):\s+(.*)$`)
+var labelRe = regexp.MustCompile(`^([A-Za-z_][A-Za-z0-9_.]*(?:\{[A-Za-z0-9_, ]*\})?):\s+(.*)$`)
 
 func splitLabel(s string) (string, string) {
 	if m := labelRe.FindStringSubmatch(s); m != nil {
@@ -170,11 +173,20 @@ func (cs *Contracts) ReadFile(path, pkgPath string) error {
 	var curLemma *LemmaDecl
 	mkClause := func(src string, line int) (Clause, error) {
 		label, rest := splitLabel(src)
+		var uses []string
+		if i := strings.Index(label, "{"); i >= 0 {
+			for _, u := range strings.Split(strings.Trim(label[i:], "{}"), ",") {
+				if u = strings.TrimSpace(u); u != "" {
+					uses = append(uses, u)
+				}
+			}
+			label = label[:i]
+		}
 		e, err := ParseExpr(rest)
 		if err != nil {
 			return Clause{}, fmt.Errorf("%s:%d: %v", path, line, err)
 		}
-		return Clause{Label: label, Src: rest, E: e, File: path, Line: line}, nil
+		return Clause{Label: label, Uses: uses, Src: rest, E: e, File: path, Line: line}, nil
 	}
 	for _, rl := range lines {
 		t := rl.text
@@ -348,6 +360,10 @@ func (cs *Contracts) ReadFile(path, pkgPath string) error {
 				}
 			case "nohavoc":
 				cur.NoHavoc = true
+			case "lemmas":
+				cur.Lemmas = append(cur.Lemmas, strings.Fields(rest)...)
+			case "opaque":
+				cur.Opaque = append(cur.Opaque, strings.Fields(rest)...)
 			case "private":
 				cur.Private = append(cur.Private, strings.Fields(rest)...)
 			case "unroll":
